@@ -198,6 +198,13 @@ let () =
              tbl := [];
              Printf.printf "P %d\nT 0\n" (int_of_n site));
           print_string "END\n"
+        | "OWN" :: f :: gs ->
+          (* C08: which frames of a history are data segments of the probe's own flow /
+             data segments of another flow with the same cookie *)
+          let fb = bytes_of_hex f in
+          let own = String.concat "" (List.map (fun g -> if own_data_of_frame !cfg fb (bytes_of_hex g) then "1" else "0") gs) in
+          let col = String.concat "" (List.map (fun g -> if collides_with_frame !cfg fb (bytes_of_hex g) then "1" else "0") gs) in
+          Printf.printf "O %s %s\n" (if own = "" then "-" else own) (if col = "" then "-" else col)
         | "COOKIE" :: k0 :: k1 :: src :: dst :: sp :: dp :: _ ->
           Printf.printf "C %d\n" (int_of_n (cookie (n_of_hex k0) (n_of_hex k1) (bytes_of_hex src)
                                               (bytes_of_hex dst) (n_of_dec sp) (n_of_dec dp)))
